@@ -630,9 +630,11 @@ fn transform_expr(state: &mut State<'_>, scope: &mut Scope, expr: MonoExpr) -> L
                 });
                 call_args.extend(args);
                 let func_ty = entry.ty.clone();
+                let apply_fn = apply_fn.to_string();
+                let ty = apply_result_ty(state, &apply_fn, ty);
                 return LiftExpr::ECall {
                     func: Box::new(LiftExpr::EVar {
-                        name: apply_fn.to_string(),
+                        name: apply_fn,
                         ty: func_ty,
                     }),
                     args: call_args,
@@ -646,6 +648,7 @@ fn transform_expr(state: &mut State<'_>, scope: &mut Scope, expr: MonoExpr) -> L
                 && let Some(apply_fn) = state.apply_fn_for_struct(&struct_name)
             {
                 let apply_fn = apply_fn.to_string();
+                let ty = apply_result_ty(state, &apply_fn, ty);
                 let mut call_args = Vec::with_capacity(args.len() + 1);
                 call_args.push(func_expr);
                 call_args.extend(args);
@@ -712,6 +715,16 @@ fn transform_expr(state: &mut State<'_>, scope: &mut Scope, expr: MonoExpr) -> L
     }
 }
 
+/// The type of a call of a closure's apply function: when the closure's body yields a closure
+/// itself (`|a| |b| a + b`), that is the inner closure's environment, not the declared
+/// function type.
+fn apply_result_ty(state: &State<'_>, apply_fn: &str, ty: Ty) -> Ty {
+    match state.liftenv.get_func(apply_fn) {
+        Some(Ty::TFunc { ret_ty, .. }) if state.ty_contains_closure(&ret_ty) => *ret_ty,
+        _ => ty,
+    }
+}
+
 fn transform_closure(
     state: &mut State<'_>,
     scope: &mut Scope,
@@ -764,6 +777,14 @@ fn transform_closure(
         state.pop_context_name();
     }
     scope.pop_layer();
+
+    // Like a top-level function: a closure whose body yields a closure returns its environment.
+    let body_ty = body.get_ty();
+    let ret_ty = if body_ty != ret_ty && state.ty_contains_closure(&body_ty) {
+        body_ty
+    } else {
+        ret_ty
+    };
 
     let mut captured = IndexMap::new();
     let mut bound = bound_names.clone();
